@@ -80,6 +80,7 @@ def run(chk):
     chk.assumptions = ["reads are generated from a model of the layer cache so that no read raises by construction; a read that raises "
                        "anyway is reported", "$n is used up to $10 (deeper indices are a runtime error by design)"]
     chk.floor = 3000
+    chk.rule += '; plus frames above 65535 bytes and records whose wire length differs from the captured length'
     work = core.scratch_dir()
     try:
         cases, meta = build_cases(rng, work, 250 if quick else 6000, quick)
